@@ -110,6 +110,22 @@ Theorem C08_stack_always_nonvacuous :
 Proof. exact ex_always_nonvacuous. Qed.
 Print Assumptions C08_stack_always_nonvacuous.
 
+(** after a reload of a layer ([Handle::reload] on a [reload::Subscriber] layer of a live stack) the Registry's
+    "has per-subscriber filters" flag can be stale (filter ids registered when the stack was built are kept):
+    the interest theorems hold for any value of the flag the code can have *)
+Theorem C08_stack_never_after_reload : forall has c m cx,
+  CLeafOK c -> c_f12 c m = false -> CRegistered c m cx ->
+  fst (c_reg has c m None) = never -> deliver c m cx = [].
+Proof. exact stack_never_any_has. Qed.
+Print Assumptions C08_stack_never_after_reload.
+
+Theorem C08_stack_always_after_reload : forall has c m cx,
+  CLeafOK c -> c_f12 c m = false -> CRegistered c m cx -> c_f82 c m = false ->
+  (has = true \/ c_nfilt c = 0) ->
+  fst (c_reg has c m None) = always -> deliver c m cx = c_all c.
+Proof. exact stack_always_any_has. Qed.
+Print Assumptions C08_stack_always_after_reload.
+
 Theorem C08_F82_refuted :
   exists c m cx, CLeafOK c /\ c_f12 c m = false /\ CRegistered c m cx /\ c_f82 c m = true /\
                  c_interest c m = always /\ deliver c m cx = [] /\ c_all c = [1].
@@ -270,7 +286,7 @@ Print Assumptions C08_source_add_interest.
 Theorem C08_source_shapes :
   gen_summary_unrecognised = [] /\ gen_inner_is_registry_from_inner_value = true /\
   gen_vec_interest_is_conjunction = true /\ gen_vec_enabled_is_all = true /\ gen_vec_hint_is_max_from_off = true /\
-  gen_vec_markers = true /\ gen_layered_markers = true /\ gen_option_none_summaries = true /\ gen_filtered_summaries = true /\
+  gen_vec_markers = true /\ gen_layered_markers = true /\ gen_reload_markers = true /\ gen_option_none_summaries = true /\ gen_filtered_summaries = true /\
   gen_targets_summaries = true /\ gen_env_hint = true /\ gen_directive_add_max_exact = true.
 Proof. exact (conj source_recognised (conj source_inner_is_registry source_flags)). Qed.
 Print Assumptions C08_source_shapes.
